@@ -99,5 +99,5 @@ InvModelResponse ==
      /\ r.framed
      /\ Len(Named(r, NProtocol)) = 1 /\ ~p.cfg.subsNil =>
            Named(r, NProtocol)[1].v \in OfferedProtos(p) \cap Rng(p.cfg.subs)
-     /\ Len(Named(r, NExtensions)) = 1 => p.cfg.compress
+     /\ (Len(Named(r, NExtensions)) = 1 /\ (p.rh.hasExt => ExtKeyInDomain(p))) => p.cfg.compress
 =============================================================================
